@@ -15,7 +15,7 @@ import (
 func init() {
 	vlib.Register(&vlib.Check{
 		ID: "C27", Engine: "E3",
-		Rule: "breadth-first search over histories of {add, term:i (the running job that was given id i finishes), gc, get:i (i=0..N+1), latest, list} on a fresh lang.NewJobs() with at most N jobs ever added (N=10 quick, 12 thorough); canonical state = (jobs added so far, class of Get(i) for i=1..N+1: running / finished / out of range); every operation is executed in every reachable state by replaying the shortest history on a fresh table, compared with a model written from the statement, and successors with a new canonical state are enqueued until a fixpoint; non-trivial = transitions executed in a state where a finished job has a lower id than a running one, or an add that is given a previously used id",
+		Rule:        "breadth-first search over histories of {add, term:i (the running job that was given id i finishes), gc, get:i (i=0..N+1), latest, list} on a fresh lang.NewJobs() with at most N jobs ever added (N=10 quick, 12 thorough); canonical state = (jobs added so far, class of Get(i) for i=1..N+1: running / finished / out of range); every operation is executed in every reachable state by replaying the shortest history on a fresh table, compared with a model written from the statement, and successors with a new canonical state are enqueued until a fixpoint; non-trivial = transitions executed in a state where a finished job has a lower id than a running one, or an add that is given a previously used id",
 		Shards:      func(string) int { return 1 },
 		Run:         run,
 		Replay:      func(c *vlib.Ctx, w string) { replayWitness(c, w) },
@@ -25,8 +25,8 @@ func init() {
 
 // inst: one real table plus the model of the statement.
 type inst struct {
-	n     int
-	real  interface {
+	n    int
+	real interface {
 		Add(*lang.Process)
 		GarbageCollect()
 		Get(int) (*lang.Process, error)
